@@ -33,6 +33,13 @@ DEFS = {"P": P, "PC": PC, "PD": PD, "PR": PR, "PF": PF, "PFR": PFR, "Rec": REC,
         "Adj3": {"oneOf": [{"type": "object", "properties": {"t": {"type": "string", "enum": ["A"]}, "c": INT}, "required": ["t", "c"]},
                            {"type": "object", "properties": {"t": {"type": "string", "enum": ["B"]}, "c": {"type": "object", "properties": {"x": INT}, "required": ["x"]}}, "required": ["t", "c"]},
                            {"type": "object", "properties": {"t": {"type": "string", "enum": ["C"]}}, "required": ["t"]}]},
+        # the same taggings over CLOSED variant objects (what schemars writes under deny_unknown_fields): a default with a further member is invalid
+        "AdjC": {"oneOf": [{"type": "object", "properties": {"t": {"type": "string", "enum": ["A"]}, "c": INT}, "required": ["t", "c"], "additionalProperties": False},
+                           {"type": "object", "properties": {"t": {"type": "string", "enum": ["B"]}}, "required": ["t"], "additionalProperties": False}]},
+        "IntC": {"oneOf": [{"type": "object", "properties": {"t": {"type": "string", "enum": ["A"]}, "x": INT}, "required": ["t", "x"], "additionalProperties": False},
+                           {"type": "object", "properties": {"t": {"type": "string", "enum": ["B"]}}, "required": ["t"], "additionalProperties": False}]},
+        "ExtC": {"oneOf": [{"type": "string", "enum": ["U"]}, {"type": "object", "properties": {"S": {"type": "object", "properties": {"x": INT}, "required": ["x"], "additionalProperties": False}},
+                                                                "required": ["S"], "additionalProperties": False}]},
         "Flat2": {"allOf": [{"$ref": "#/definitions/P"}, {"type": "object", "properties": {"w": STR}, "required": ["w"]}]},
         "Se": {"type": "string", "enum": ["a", "b"]},
         "Te": {"type": "integer", "enum": [1, 2]},
@@ -118,6 +125,9 @@ KINDS = {
     "allof_struct": (ref("Flat2"), [{"x": 1, "w": "s"}, {"x": 1, "w": "s", "y": "t"}], [{"x": 1}, {"w": "s"}, {"x": "s", "w": "s"}], False),
     "tuple_unit": ({"type": "array", "items": [{"type": "null"}, INT], "minItems": 2, "maxItems": 2}, [[None, 1]], [[0, 1], [None]], False),
     "struct_unit_member": ({"type": "object", "properties": {"u": {"type": "null"}, "n": INT}, "required": ["u", "n"]}, [{"u": None, "n": 1}], [{"u": 0, "n": 1}, {"n": 1}], False),
+    "enum_adj_closed": (ref("AdjC"), [{"t": "A", "c": 1}, {"t": "B"}], [{"t": "A", "c": 1, "unit": "mm"}, {"t": "B", "c": 1}, {"t": "B", "radius": 3}], False),
+    "enum_int_closed": (ref("IntC"), [{"t": "A", "x": 1}, {"t": "B"}], [{"t": "A", "x": 1, "unit": "mm"}, {"t": "B", "x": 1}], False),
+    "enum_ext_closed": (ref("ExtC"), ["U", {"S": {"x": 1}}], [{"S": {"x": 1, "y": 2}}, {"S": {"x": 1}, "T": 0}, {"U": None}], False),
     "enum_unt": (ref("Unt"), ["s", 5, [1]], [True, {}], False),
     "alias": (ref("Al"), [{"x": 2}], [{"x": "s"}], False),
     "boxed": (ref("Rec"), [{}, {"r": {}}], [{"r": 5}], False),
@@ -127,7 +137,7 @@ KINDS = {
     "date": ({"type": "string", "format": "date"}, ["2020-02-29"], [], True),
 }
 QUICK_KINDS = ["bool", "u8", "i64", "nz32", "f64", "string", "str_max2", "str_enum", "opt_scalar", "opt_struct", "vec", "set", "map_int", "map_any", "map_key", "map_enum_key", "map_patprops", "map_key_len",
-               "tuple1", "tuple2", "struct", "struct_closed", "struct_renamed", "alias", "struct_req_nullable", "struct_nested_defaults", "struct_inline_defaults", "enum_inline_defaults", "struct_flat", "struct_flat_renamed", "struct_flat_renamed_inline", "enum_ext", "enum_int", "enum_adj", "enum_adj3", "allof_struct", "tuple_unit", "struct_unit_member", "enum_unt", "enum_ext_tuple", "enum_adj_tuple", "enum_unt_struct", "deny_list", "str_pattern", "str_mb", "str_min3_mb", "str_minmax",
+               "tuple1", "tuple2", "struct", "struct_closed", "struct_renamed", "alias", "struct_req_nullable", "struct_nested_defaults", "struct_inline_defaults", "enum_inline_defaults", "struct_flat", "struct_flat_renamed", "struct_flat_renamed_inline", "enum_ext", "enum_int", "enum_adj", "enum_adj_closed", "enum_int_closed", "enum_ext_closed", "enum_adj3", "allof_struct", "tuple_unit", "struct_unit_member", "enum_unt", "enum_ext_tuple", "enum_adj_tuple", "enum_unt_struct", "deny_list", "str_pattern", "str_mb", "str_min3_mb", "str_minmax",
                "typed_enum", "boxed", "unit", "uuid"]
 
 
